@@ -116,7 +116,7 @@ def get_enum(src, name):
 
 
 def get_consts(src):
-    return re.findall(r"(?m)^(?:pub\s+)?const\s+[A-Z0-9_]+\s*:\s*[^=]+=\s*[^;]+;", src)
+    return re.findall(r"(?m)^(?:pub(?:\([^)]*\))?\s+)?const\s+[A-Z0-9_]+\s*:\s*[^=]+=\s*[^;]+;", src)
 
 
 def r1_pub(sig):
